@@ -1,11 +1,148 @@
 import TdVerif.Sexp
+import TdVerif.Model.C20Apply
 
 namespace TdVerif.Drive
-open TdVerif Sexp
+open TdVerif Sexp TdVerif.C20
 
-/-- line-protocol handler for C20: commands are named `c20.<something>` -/
+/-! leaves are S-expressions (symbolic): `(l <id>)` for an input tensor, `(ap <key> <item> (<args>))` for a value
+returned by the user function -/
+
+abbrev TreeS := Tree Sexp
+
+def bool20? : Sexp → Option Bool
+  | .atom "true" => some true
+  | .atom "false" => some false
+  | _ => none
+
+def meta? : Sexp → Option Meta
+  | .list [.atom "m", .list batch, names, dev, locked] => do
+      let batch ← nats? batch
+      let names : Option (List String) ← (match names with
+        | .atom "none" => some none
+        | .list l => (l.mapM asAtom?).map some
+        | _ => none)
+      let dev : Option String ← (match dev with
+        | .atom "none" => some none
+        | .atom d => some (some d)
+        | _ => none)
+      pure ⟨batch, names, dev, ← bool20? locked⟩
+  | _ => none
+
+mutual
+partial def tree? : Sexp → Option TreeS
+  | .list [.atom "l", id] => some (.leaf (.list [.atom "l", id]))
+  | .list (.atom "n" :: m :: es) => do
+      let m ← meta? m
+      let es ← entries? es
+      pure (.node m es)
+  | _ => none
+partial def entries? : List Sexp → Option (Entries Sexp)
+  | [] => some .nil
+  | .list [.atom k, t] :: rest => do
+      let t ← tree? t
+      let r ← entries? rest
+      pure (.cons k t r)
+  | _ => none
+end
+
+def metaToSexp (m : Meta) : Sexp :=
+  tagged "m" [ofNats m.batch,
+    (match m.names with | none => .atom "none" | some ns => .list (ns.map .atom)),
+    (match m.device with | none => .atom "none" | some d => .atom d),
+    .atom (if m.locked then "true" else "false")]
+
+mutual
+partial def treeToSexp : TreeS → Sexp
+  | .leaf v => v
+  | .node m es => tagged "n" (metaToSexp m :: entriesToSexp es)
+partial def entriesToSexp : Entries Sexp → List Sexp
+  | .nil => []
+  | .cons k t rest => .list [.atom k, treeToSexp t] :: entriesToSexp rest
+end
+
+mutual
+/-- leaf descriptors below a tree, in order -/
+partial def leafList : TreeS → List Sexp
+  | .leaf v => [v]
+  | .node _ es => entriesLeafList es
+partial def entriesLeafList : Entries Sexp → List Sexp
+  | .nil => []
+  | .cons _ t rest => leafList t ++ entriesLeafList rest
+end
+
+/-- what the recording Python function sees of an item / operand -/
+def descr : TreeS → Sexp
+  | .leaf v => v
+  | t => tagged "td" (leafList t)
+
+def descrArg : Arg Sexp → Sexp
+  | .present t => descr t
+  | .dflt => .atom "dflt"
+
+/-- id used by the drop rule: the leaf's own id, or the first leaf id below a tensordict item -/
+def dropId (t : TreeS) : String :=
+  match leafList t with
+  | (.list [.atom "l", .atom id]) :: _ => id
+  | _ => "-"
+
+/-- the user function of the harness: returns `None` for the items whose id is in `drop`, otherwise a fresh
+value that records (key, item, operands) -/
+def symFn (drop : List String) : Fn Sexp := fun key item args =>
+  if drop.contains (dropId item) then none
+  else some (.leaf (tagged "ap" [.list (key.map .atom), descr item, .list (args.map descrArg)]))
+
+def override? {α : Type} (p : Sexp → Option α) : Sexp → Option (Override α)
+  | .atom "nodef" => some .noDefault
+  | .list [.atom "given", x] => (p x).map .given
+  | _ => none
+
+def optStr? : Sexp → Option (Option String)
+  | .atom "none" => some none
+  | .atom s => some (some s)
+  | _ => none
+
+def optNames? : Sexp → Option (Option (List String))
+  | .atom "none" => some none
+  | .list l => (l.mapM asAtom?).map some
+  | _ => none
+
+def opts? : Sexp → Option Opts
+  | .list [.atom "o", inplace, hasDefault, fe, con, named, nk, bs, names, dev, checked, nal, pl] => do
+      let fe : Option Bool ← (match fe with
+        | .atom "none" => some none
+        | x => (bool20? x).map some)
+      let bs : Option (List Nat) ← (match bs with
+        | .atom "none" => some none
+        | .list l => (nats? l).map some
+        | _ => none)
+      pure { inplace := ← bool20? inplace, hasDefault := ← bool20? hasDefault, filterEmpty := fe,
+             callOnNested := ← bool20? con, named := ← bool20? named, nestedKeys := ← bool20? nk,
+             batchSize := bs, names := ← override? optNames? names, device := ← override? optStr? dev,
+             checked := ← bool20? checked, nodeAsLeaf := ← bool20? nal, propagateLock := ← bool20? pl }
+  | _ => none
+
+def resToSexp : Except Err (Option TreeS) → Sexp
+  | .error e => tagged "err" [.atom e.toStr]
+  | .ok none => .list [.atom "none"]
+  | .ok (some t) => tagged "ok" [treeToSexp t]
+
 def handleC20 (cmd : String) (args : List Sexp) : Option Sexp :=
   match cmd, args with
+  | "c20.apply", [o, .list drop, self, .list others, out] => do
+      let o ← opts? o
+      let drop ← drop.mapM asAtom?
+      let self ← tree? self
+      let others ← others.mapM tree?
+      let out : Option TreeS ← (match out with | .atom "none" => some none | x => (tree? x).map some)
+      pure (resToSexp (apply o (symFn drop) self others out))
+  | "c20.mtapply", [o, .list drop, .list sched, self, .list others, out] => do
+      let o ← opts? o
+      let drop ← drop.mapM asAtom?
+      let sched ← nats? sched
+      let self ← tree? self
+      let others ← others.mapM tree?
+      let out : Option TreeS ← (match out with | .atom "none" => some none | x => (tree? x).map some)
+      pure (resToSexp (mtApply o (symFn drop) sched self others out))
   | _, _ => none
 
 end TdVerif.Drive
